@@ -150,7 +150,11 @@ def build_aero(case, surfaces=None, geom=None, setup=True, mode="auto", complex_
             toc = np.array(s.get("t_over_c_cp", [0.12]), float)
             g.add_output("t_over_c", val=np.ones(ny - 1) * toc.mean() if toc.size != ny - 1 else toc)
             prob.model.add_subsystem(n, g)
-    prob.model.add_subsystem("aero", AeroPoint(surfaces=surfaces, compressible=compressible, rotational=rotational),
+    user_sref = case.get("S_ref_total")
+    if user_sref is not None:
+        ivc.add_output("S_ref_total", val=float(user_sref), units="m**2")
+        names.append("S_ref_total")
+    prob.model.add_subsystem("aero", AeroPoint(surfaces=surfaces, compressible=compressible, rotational=rotational, user_specified_Sref=user_sref is not None),
                              promotes_inputs=names)
     for s in surfaces:
         n = s["name"]
@@ -202,6 +206,8 @@ def build_as(case, surfaces=None, setup=True, mode="auto", npts=None, complex_=F
         ivc.add_output(n, val=np.array(f0[n], float), units=AS_UNITS[n])
     if ground:
         ivc.add_output("height_agl", val=float(f0.get("height_agl", 8000.0)), units="m")
+    if case.get("S_ref_total") is not None:
+        ivc.add_output("S_ref_total", val=float(case["S_ref_total"]), units="m**2")
     if rotational:
         ivc.add_output("omega", val=np.array(f0.get("omega", [0.0, 0.0, 0.0]), float), units="rad/s")
         ivc.add_output("cg", val=np.array(f0.get("cg", [0.0, 0.0, 0.0]), float), units="m")
@@ -224,8 +230,10 @@ def build_as(case, surfaces=None, setup=True, mode="auto", npts=None, complex_=F
         prom = ["CT", "R", "W0", "speed_of_sound", "empty_cg", "beta"]
         if ground:
             prom.append("height_agl")
-        prob.model.add_subsystem(pt, AerostructPoint(surfaces=surfaces, compressible=compressible, rotational=rotational),
-                                 promotes_inputs=prom)
+        if case.get("S_ref_total") is not None:
+            prom.append("S_ref_total")
+        prob.model.add_subsystem(pt, AerostructPoint(surfaces=surfaces, compressible=compressible, rotational=rotational,
+                                                     user_specified_Sref=case.get("S_ref_total") is not None), promotes_inputs=prom)
         if rotational:
             c("omega", pt + ".coupled.aero_states.omega")
             c("cg", pt + ".coupled.aero_states.cg")
